@@ -48,6 +48,7 @@ MAXRANKS = int(os.environ.get("VERIF_E4_RANKS", "16"))
 REPLAY_DIR = os.environ.get("VERIF_REPLAY_DIR",
                             os.path.join(VERIF, "replays"))
 T0 = time.time()
+RUNNERS = []
 
 
 def log(*a):
@@ -280,6 +281,9 @@ class Runner:
         self.symcache = {}    # crash addresses -> (where, backtrace text)
         self.start_s = 150    # no first begin marker after that: launch failed
         self.max_starting = 3  # sessions inside MPI_Init at the same time
+        self.exit_s = 25      # done marker seen, process still there
+        self.exit_hangs = []  # stacks of sessions that would not exit
+        self.kept = 0
 
     def paths(self, s):
         b = os.path.join(self.workdir, "s%05d" % s.sid)
@@ -312,7 +316,10 @@ class Runner:
         cmd = ["mpirun", "--allow-run-as-root", "--oversubscribe", "-np",
                str(s.hosts), self.exe, fin, fout, str(s.threads)]
         s.logf = open(flog, "wb")
-        s.proc = subprocess.Popen(cmd, stdout=s.logf, stderr=subprocess.STDOUT,
+        # no stdin for mpirun (it forwards stdin to rank 0: a terminal there
+        # would stop it with SIGTTIN); the ranks write their own log files
+        s.proc = subprocess.Popen(cmd, stdin=subprocess.DEVNULL,
+                                  stdout=s.logf, stderr=subprocess.STDOUT,
                                   env=env, cwd=self.workdir,
                                   start_new_session=True)
         s.t_start = s.last_progress = time.time()
@@ -354,8 +361,49 @@ class Runner:
                 s.finished = True
         return new
 
+    def rank_pids(self, s=None):
+        """Harness processes of one session (argv[1] is its session file) or,
+        with s=None, of this whole driver run (argv[1] inside the work dir).
+        Open MPI starts every rank in a process group of its own, so killing
+        mpirun's group does NOT reach them."""
+        fin = self.paths(s)[0].encode() if s is not None else None
+        pref = (self.workdir.rstrip("/") + "/").encode()
+        pids = []
+        for d in os.listdir("/proc"):
+            if not d.isdigit():
+                continue
+            try:
+                cl = open("/proc/%s/cmdline" % d, "rb").read().split(b"\0")
+            except OSError:
+                continue
+            if len(cl) < 2 or os.path.basename(cl[0]) != \
+                    os.path.basename(self.exe).encode():
+                continue
+            if (fin is not None and cl[1] == fin) or \
+                    (fin is None and cl[1].startswith(pref)):
+                pids.append(int(d))
+        return pids
+
+    @staticmethod
+    def _kill_pids(pids):
+        for pid in pids:
+            for sig in (signal.SIGCONT, signal.SIGKILL):
+                try:
+                    os.kill(pid, sig)
+                except OSError:
+                    pass
+
     def kill(self, s):
+        """End a session for good: ask mpirun to terminate its job (it then
+        removes its session directory and shared memory), then SIGKILL
+        whatever is left -- mpirun's group and every rank of the session."""
+        ranks = self.rank_pids(s)
         if s.proc and s.proc.poll() is None:
+            try:
+                s.proc.terminate()
+                s.proc.wait(timeout=4)
+            except Exception:
+                pass
             try:
                 os.killpg(s.proc.pid, signal.SIGKILL)
             except OSError:
@@ -364,10 +412,38 @@ class Runner:
                 s.proc.wait(timeout=10)
             except Exception:
                 pass
+        self._kill_pids(set(ranks) | set(self.rank_pids(s)))
         try:
             s.logf.close()
         except Exception:
             pass
+
+    def kill_all(self):
+        """Last sweep when the driver leaves: nothing of this run survives."""
+        self._kill_pids(self.rank_pids(None))
+
+    def rank_logs(self, s):
+        fout = self.paths(s)[1]
+        d, b = os.path.dirname(fout), os.path.basename(fout) + "."
+        try:
+            return sorted(os.path.join(d, f) for f in os.listdir(d)
+                          if f.startswith(b) and f.endswith(".log"))
+        except OSError:
+            return []
+
+    def all_log_text(self, s, nbytes=300000):
+        """mpirun's own output followed by the tail of every rank's log."""
+        t = ""
+        for p in [self.paths(s)[2]] + self.rank_logs(s):
+            try:
+                with open(p, "rb") as f:
+                    f.seek(0, 2)
+                    sz = f.tell()
+                    f.seek(max(0, sz - nbytes))
+                    t += f.read().decode("utf-8", "replace") + "\n"
+            except OSError:
+                pass
+        return t
 
     def diagnose(self, s, nbytes=300000):
         """Diagnosis of an abnormal session end from its log -> dict(kind,
@@ -375,14 +451,7 @@ class Runner:
         frames of Open MPI's backtrace that lie in the checked components
         (addr2line -i on the harness binary).  `where` is the innermost such
         function, e.g. 'GingerP::getMaster'."""
-        try:
-            with open(self.paths(s)[2], "rb") as f:
-                f.seek(0, 2)
-                sz = f.tell()
-                f.seek(max(0, sz - nbytes))
-                t = f.read().decode("utf-8", "replace")
-        except OSError:
-            return dict(kind="crash", where="", text="")
+        t = self.all_log_text(s, nbytes)
         out = []
         for l in t.splitlines():
             if ("ERROR" in l or "what()" in l or "terminate called" in l or
@@ -444,30 +513,16 @@ class Runner:
     def rank_positions(self, s):
         """Last position line every rank wrote to the session log."""
         last = {}
-        try:
-            for l in open(self.paths(s)[2], errors="replace"):
-                m = re.match(r"E4-RANK (\d+): (.*)", l)
-                if m:
-                    last[int(m.group(1))] = m.group(2).strip()
-        except OSError:
-            pass
+        for l in self.all_log_text(s).splitlines():
+            m = re.match(r"E4-RANK (\d+): (.*)", l)
+            if m:
+                last[int(m.group(1))] = m.group(2).strip()
         return "; ".join("rank %d %s" % kv for kv in sorted(last.items()))
 
     def stacks(self, s):
         """Stalled session: stacks of all its ranks via gdb, reduced to the
         frames inside the checked components.  -> (where, text)"""
-        fin = self.paths(s)[0]
-        pids = []
-        for d in os.listdir("/proc"):
-            if not d.isdigit():
-                continue
-            try:
-                cl = open("/proc/%s/cmdline" % d, "rb").read().split(b"\0")
-            except OSError:
-                continue
-            if len(cl) > 1 and cl[0].decode("utf-8", "replace") == self.exe \
-                    and fin.encode() in cl:
-                pids.append(int(d))
+        pids = self.rank_pids(s)
         where, parts = "", []
         for pid in sorted(pids)[:4]:
             try:
@@ -476,6 +531,12 @@ class Runner:
                      "thread apply all bt 14"], stdout=subprocess.PIPE,
                     stderr=subprocess.DEVNULL, text=True, timeout=40)
             except Exception:
+                # gdb was killed by the timeout: its tracee may be left in a
+                # ptrace stop -- wake it (the session is killed right after)
+                try:
+                    os.kill(pid, signal.SIGCONT)
+                except OSError:
+                    pass
                 continue
             cur, frames = None, {}
             for l in r.stdout.splitlines():
@@ -499,8 +560,23 @@ class Runner:
                         where = frames[th][0].split(" at ")[0]
         return where, " || ".join(parts)[:4000]
 
+    def keep_files(self, s):
+        """Debugging: preserve the raw files of the first abnormal sessions."""
+        if self.kept >= 12:
+            return
+        self.kept += 1
+        d = os.path.join(build.TMP, "e4-keep")
+        os.makedirs(d, exist_ok=True)
+        for p in list(self.paths(s)) + self.rank_logs(s):
+            try:
+                shutil.copy(p, os.path.join(d, "%d-%s" % (
+                    os.getpid(), os.path.basename(p))))
+            except OSError:
+                pass
+
     def cleanup(self, s):
-        for p in self.paths(s):
+        self._kill_pids(self.rank_pids(s))
+        for p in list(self.paths(s)) + self.rank_logs(s):
             try:
                 os.unlink(p)
             except OSError:
@@ -593,6 +669,22 @@ def run_sessions(runner, sessions, deadline_at, on_result, on_end,
                     diag["text"] = "mpirun exit %s; %s" % (rc, diag["text"])
                     pending = on_end(s, False, diag) + pending
                 runner.cleanup(s)
+            elif s.finished and time.time() - s.last_progress > \
+                    runner.exit_s:
+                # every case is done and reported, but the ranks do not
+                # leave (Galois' distributed teardown): not a verdict of any
+                # case -- record where they sit, end the session, go on
+                if len(runner.exit_hangs) < 3:
+                    _w, st = runner.stacks(s)
+                    runner.exit_hangs.append(
+                        (runner.rank_positions(s) + " || " + st)[:3000])
+                else:
+                    runner.exit_hangs.append("")
+                runner.kill(s)
+                running.remove(s)
+                account(s)
+                pending = on_end(s, True, None) + pending
+                runner.cleanup(s)
             elif time.time() - s.last_progress > (
                     runner.stall_s if s.seen_bytes else runner.start_s):
                 stalled = time.time() - s.last_progress
@@ -607,6 +699,7 @@ def run_sessions(runner, sessions, deadline_at, on_result, on_end,
                 runner.kill(s)
                 running.remove(s)
                 account(s)
+                runner.keep_files(s)
                 pending = on_end(s, False, diag) + pending
                 runner.cleanup(s)
         if time.time() - last_print > progress_every:
@@ -937,6 +1030,8 @@ def main():
     try:
         return run_check(a, prop, tier, exe, workdir, deadline_at)
     finally:
+        for r in RUNNERS:
+            r.kill_all()
         if not a.keep:
             shutil.rmtree(workdir, ignore_errors=True)
 
@@ -975,6 +1070,7 @@ def run_check(a, prop, tier, exe, workdir, deadline_at):
         "(<= %d ranks at a time), deadline %.0fs" %
         (prop, tier, len(plan), reps, len(sessions), MAXRANKS, a.deadline))
     runner = Runner(exe, workdir, files, stall)
+    RUNNERS.append(runner)
 
     cells = {}      # cell name -> stats
     failures = {}   # key -> list of (size_key, cid, hosts, threads, msg, at)
@@ -1216,7 +1312,10 @@ def run_check(a, prop, tier, exe, workdir, deadline_at):
                cases=out_cases, repetitions=reps,
                schedules="uncontrolled, %d repetitions" % reps,
                inputs_with_differing_outcomes_across_repetitions=nondet,
-               unconfirmed=unconfirmed)
+               unconfirmed=unconfirmed,
+               sessions_not_exiting_after_all_work=dict(
+                   count=len(runner.exit_hangs),
+                   examples=[x for x in runner.exit_hangs if x][:3]))
     if prop == "C18":
         doc["encodings_seen"] = enc_total
         doc["partition_stage_failures"] = {
@@ -1235,6 +1334,12 @@ def run_check(a, prop, tier, exe, workdir, deadline_at):
     for k, v in sorted(partition_failures.items()):
         log("# %d cases could not be explored: %s while partitioning "
             "(reported by C19)" % (len(v), k))
+    if runner.exit_hangs:
+        log("# %d sessions had finished every case but their processes did "
+            "not exit within %ds and were killed (teardown of the "
+            "distributed runtime, outside this property); e.g. %s" % (
+                len(runner.exit_hangs), runner.exit_s,
+                runner.exit_hangs[0][:1500]))
     if launch_failures[0]:
         log("# %d mpirun launches failed or stalled in MPI_Init and were "
             "repeated (machinery, not a verdict)" % launch_failures[0])
@@ -1274,6 +1379,7 @@ def replay(path):
     try:
         files = Files(os.path.join(workdir, "graphs"))
         runner = Runner(exe, workdir, files, 60)
+        RUNNERS.append(runner)
         c, hosts, threads = doc["case"], doc["hosts"], doc["threads"]
         log("# replay %s: %s" % (doc["key"], case_name(c, hosts)))
         log("#   edges %s  options %s" % (c["edges"] if len(c["edges"]) < 40
@@ -1329,6 +1435,8 @@ def replay(path):
             "uncontrolled)" % (doc["key"], hit, runs))
         return 1 if hit else 0
     finally:
+        for r in RUNNERS:
+            r.kill_all()
         shutil.rmtree(workdir, ignore_errors=True)
 
 
